@@ -74,7 +74,7 @@ func panicRules(roots []string) func(p *Prog, r *Report) {
 
 func init() {
 	register("C01",
-		"Structural clauses of 'XML decodes to the documented Map under all options' decided on xmlToMapParser: INFL.cover (attribute keys depend on attrPrefix, lowerCase, snakeCaseKeys and the attribute name; element keys on lowerCase/snakeCaseKeys; text on trimRunes and xmlEscapeCharsDecoder and passes through cast with the decoder's flag; text-key choice on decodeSimpleValuesAsMap; _seq only under includeTagSeqNum), INFL.castflag (structure independent of the cast flag), TABLE.keys (shared key variables, no literals), DECODE.sibling (every decoded child is stored on every path; repeated siblings are append(existing, new)), PAIR.seqnum (the _seq number is a running counter advanced with every child), OPT.setter + PAIR.derived for the options the decoder reads (each setter stores what its documentation says for no, one and more arguments; trimRunes follows disableTrimWhiteSpace), TEXT.nonempty (character data is stored only under a non-emptiness test of the trimmed text that is stored: white space between children never becomes or overwrites a text value), FOLD.total (snake-case folding replaces every hyphen), TABLE.escape (decoder-side escaping touches exactly the five special characters, '&' first), PANIC.nil/assert/idx on the decoder. Not decided: equality of the produced Map with the documented one (trimming results, collisions, case-folding values). TEXT.trimset (character data is trimmed with the option's cut set trimRunes only); TABLE.naninf for the decoder's cast. TABLE.trimset (the two trim cut sets differ by the blank only); FOLD.total whole-key clause (lower-casing applies to the assembled key). OPT.excl (the coupled escape setters)."+levelNote,
+		"Structural clauses of 'XML decodes to the documented Map under all options' decided on xmlToMapParser: INFL.cover (attribute keys depend on attrPrefix, lowerCase, snakeCaseKeys and the attribute name; element keys on lowerCase/snakeCaseKeys; text on trimRunes and xmlEscapeCharsDecoder and passes through cast with the decoder's flag; text-key choice on decodeSimpleValuesAsMap; _seq only under includeTagSeqNum), INFL.castflag (structure independent of the cast flag), TABLE.keys (shared key variables, no literals), DECODE.sibling (every decoded child is stored on every path; repeated siblings are append(existing, new)), PAIR.seqnum (the _seq number is a running counter advanced with every child), OPT.setter + PAIR.derived for the options the decoder reads (each setter stores what its documentation says for no, one and more arguments; trimRunes follows disableTrimWhiteSpace), TEXT.nonempty (character data is stored only under a non-emptiness test of the trimmed text that is stored: white space between children never becomes or overwrites a text value), FOLD.total (snake-case folding replaces every hyphen), TABLE.escape (decoder-side escaping touches exactly the five special characters, '&' first), PANIC.nil/assert/idx on the decoder. Not decided: equality of the produced Map with the documented one (trimming results, collisions, case-folding values). TEXT.trimset (character data is trimmed with the option's cut set trimRunes only); TABLE.naninf for the decoder's cast. TABLE.trimset (the two trim cut sets differ by the blank only); FOLD.total whole-key clause (lower-casing applies to the assembled key). OPT.excl (the coupled escape setters). DECODER.config (every xml.Decoder made for the element parser is configured by the one shared sequence: no entry point decodes under other tokenizer settings)."+levelNote,
 		[]string{"documented option semantics transcribed in rules_infl.go"},
 		ruleInflCover,
 		func(p *Prog, r *Report) { ruleInflCastFlag(p, r) },
@@ -89,7 +89,7 @@ func init() {
 		func(p *Prog, r *Report) { ruleTextTrimSet(p, r, []string{"mxj.xmlToMapParser"}) },
 		ruleTableTrimSet,
 		func(p *Prog, r *Report) { ruleFoldWhole(p, r, []string{"mxj.xmlToMapParser"}) },
-		ruleOptExcl,
+		ruleOptExcl, ruleDecoderConfig,
 		func(p *Prog, r *Report) { ruleCastOpaque(p, r, []string{"mxj.xmlToMapParser"}) },
 		panicRules(grpMapDecode))
 
@@ -108,7 +108,7 @@ func init() {
 		func(p *Prog, r *Report) { ruleWalkArms(p, r, []string{"mxj.marshalMapToXmlIndent"}) })
 
 	register("C03",
-		"Structural clauses of 'encoding a JSON-shaped value as XML preserves all data': WALK.arms (every list member encoded in order under its key, every collected child encoded, AnyXml encodes every member of a list value), ROOT.explicit (AnyXml / AnyXmlIndent always name the root when they hand a map to Map.Xml / XmlIndent), TABLE.partition, ESC.flow, TABLE.escape (all five special characters are escaped, '&' first, no early return leaves one unescaped), ERR.path on the Map encoders and AnyXml/AnyXmlIndent (an element encoder error cannot be overwritten or dropped), TAGS.protocol (typestate of the element encoder: every path feasible for a JSON-shaped value writes a complete, properly nested element), TAGS.content (no scalar value or text entry is dropped: a write computed from it precedes the end of the element on every path), OWN.private (the document returned is not reachable from package state — a pooled or cached buffer — so no later call can rewrite it), RENDER.lossless (no value-changing numeric conversion between the encoded value and its text). Not decided: decode(encode(m)) ≅ m; well-formedness for arbitrary key strings. ROOT.ownkey (in the single-member case the whole Map is wrapped in the default root only for a list member). OPT.excl (the coupled escape setters). JSON.decoder for NewMapJson."+levelNote,
+		"Structural clauses of 'encoding a JSON-shaped value as XML preserves all data': WALK.arms (every list member encoded in order under its key, every collected child encoded, AnyXml encodes every member of a list value), ROOT.explicit (AnyXml / AnyXmlIndent always name the root when they hand a map to Map.Xml / XmlIndent), TABLE.partition, ESC.flow, TABLE.escape (all five special characters are escaped, '&' first, no early return leaves one unescaped), ERR.path on the Map encoders and AnyXml/AnyXmlIndent (an element encoder error cannot be overwritten or dropped), TAGS.protocol (typestate of the element encoder: every path feasible for a JSON-shaped value writes a complete, properly nested element), TAGS.content (no scalar value or text entry is dropped: a write computed from it precedes the end of the element on every path), OWN.private (the document returned is not reachable from package state — a pooled or cached buffer — so no later call can rewrite it), RENDER.lossless (no value-changing numeric conversion between the encoded value and its text). Not decided: decode(encode(m)) ≅ m; well-formedness for arbitrary key strings. ROOT.ownkey (in the single-member case the whole Map is wrapped in the default root only for a list member). OPT.excl (the coupled escape setters). JSON.decoder for NewMapJson. ROOT.explicit (the first optional tag of AnyXml / AnyXmlIndent is read at a point not confined to the one-tag case: an explicit root is honoured with an element tag too)."+levelNote,
 		nil,
 		ruleTagProtocol, func(p *Prog, r *Report) { ruleTagContent(p, r, "map") }, ruleRootSingle, ruleRootOwnKey,
 		func(p *Prog, r *Report) { ruleRenderLossless(p, r, []string{"mxj.marshalMapToXmlIndent"}) },
@@ -116,7 +116,7 @@ func init() {
 			ruleOwnPrivate(p, r, []string{"mxj.Map.Xml", "mxj.Map.XmlIndent", "mxj.AnyXml", "mxj.AnyXmlIndent"})
 		},
 		func(p *Prog, r *Report) { ruleWalkArms(p, r, []string{"mxj.marshalMapToXmlIndent"}) },
-		ruleAnyXmlList, ruleAnyXmlNilOnly, ruleTablePartition, ruleEsc, ruleTableEscape, ruleValidCoupling, ruleOptExcl,
+		ruleAnyXmlList, ruleAnyXmlNilOnly, ruleAnyXmlTags, ruleTablePartition, ruleEsc, ruleTableEscape, ruleValidCoupling, ruleOptExcl,
 		ruleJsonDecoderFor([]string{"mxj.NewMapJson"}),
 		func(p *Prog, r *Report) { ruleErrContent(p, r, []string{"mxj.marshalMapToXmlIndent"}) },
 		func(p *Prog, r *Report) { ruleElemAlways(p, r, []string{"mxj.marshalMapToXmlIndent"}) },
@@ -125,13 +125,13 @@ func init() {
 		})
 
 	register("C04",
-		"Structural clauses of the MapSeq round trip: PAIR.seq (every token kind gets a fresh sequence number that is advanced in the same block; attributes take their index; the child collection skips exactly the attribute and sequence keys), ORDER on the sequence encoder (attributes and children are sorted by sequence number before any write), DECODE.sibling and WALK.arms for the sequence codec, SHAPE.seq (decoder output has the shape the encoder asserts), PANIC.* on both halves, WRAP.compose for BeautifyXml, TAGS.seqprotocol (token-level typestate of the sequence encoder: < name, blank name = quoted value, then either > content </ name > or />, comment / directive / processing-instruction forms; no successful return leaves an open element), TAGS.content (the text entry and the scalar value are written on every path that completes the element, for strings and for the numbers / booleans casting produces), OWN.private (the encoded document is not reachable from package state), SEQ.unwind (every member of a list of same-named children is a sort entry of its own), SEQ.result (the map the decoder returns for an element is written only when the element ends, so nothing collected for it is dropped), SEQ.types (every typed read of a '#seq' entry accepts int and float64), SEQ.leafkeys (every scan of an element's keys sets the same reserved keys aside as the child collection does), TEXT.nonempty (character data is recorded only under a non-emptiness test of the trimmed text that is stored, so indentation never replaces an element's text), RENDER.lossless. Not decided: token-stream equality. TEXT.trimset (character data is trimmed with the option's cut set only), ESC.verbatim (nothing in the arms for comments, directives and processing instructions reaches escapeChars), ROOT.ownkey (default-root wrap only for a list member). ALIAS.unsafe (no unsafe.Pointer conversions); INFL.cover clause: cast inputs of the sequence decoder depend on xmlEscapeCharsDecoder."+levelNote,
+		"Structural clauses of the MapSeq round trip: PAIR.seq (every token kind gets a fresh sequence number that is advanced in the same block; attributes take their index; the child collection skips exactly the attribute and sequence keys), ORDER on the sequence encoder (attributes and children are sorted by sequence number before any write), DECODE.sibling and WALK.arms for the sequence codec, SHAPE.seq (decoder output has the shape the encoder asserts), PANIC.* on both halves, WRAP.compose for BeautifyXml, TAGS.seqprotocol (token-level typestate of the sequence encoder: < name, blank name = quoted value, then either > content </ name > or />, comment / directive / processing-instruction forms; no successful return leaves an open element), TAGS.content (the text entry and the scalar value are written on every path that completes the element, for strings and for the numbers / booleans casting produces), OWN.private (the encoded document is not reachable from package state), SEQ.unwind (every member of a list of same-named children is a sort entry of its own), SEQ.result (the map the decoder returns for an element is written only when the element ends, so nothing collected for it is dropped), SEQ.types (every typed read of a '#seq' entry accepts int and float64), SEQ.leafkeys (every scan of an element's keys sets the same reserved keys aside as the child collection does), TEXT.nonempty (character data is recorded only under a non-emptiness test of the trimmed text that is stored, so indentation never replaces an element's text), RENDER.lossless. Not decided: token-stream equality. TEXT.trimset (character data is trimmed with the option's cut set only), ESC.verbatim (nothing in the arms for comments, directives and processing instructions reaches escapeChars), ROOT.ownkey (default-root wrap only for a list member). ALIAS.unsafe (no unsafe.Pointer conversions); INFL.cover clause: cast inputs of the sequence decoder depend on xmlEscapeCharsDecoder. OPT.excl (encoder- and decoder-side escaping never both on)."+levelNote,
 		nil,
 		ruleTagProtocolSeq, func(p *Prog, r *Report) { ruleTagContent(p, r, "seq") },
 		func(p *Prog, r *Report) {
 			ruleOwnPrivate(p, r, []string{"mxj.MapSeq.Xml", "mxj.MapSeq.XmlIndent", "mxj.BeautifyXml"})
 		},
-		rulePairSeq, ruleSeqUnwind, ruleSeqResult, ruleSeqTypes, ruleSeqLeafKeys, ruleRootSingle, ruleRootOwnKey, ruleEscVerbatim, ruleNoUnsafe, ruleInflCover, ruleTableEscape,
+		rulePairSeq, ruleSeqUnwind, ruleSeqResult, ruleSeqTypes, ruleSeqLeafKeys, ruleRootSingle, ruleRootOwnKey, ruleEscVerbatim, ruleNoUnsafe, ruleInflCover, ruleTableEscape, ruleOptExcl,
 		func(p *Prog, r *Report) { ruleErrContent(p, r, []string{"mxj.mapToXmlSeqIndent"}) },
 		func(p *Prog, r *Report) { ruleTextNonEmpty(p, r, []string{"mxj.xmlSeqToMapParser"}) },
 		func(p *Prog, r *Report) { ruleTextTrimSet(p, r, []string{"mxj.xmlSeqToMapParser"}) },
@@ -154,12 +154,13 @@ func init() {
 		})
 
 	register("C06",
-		"Structural clauses of 'JSON encode/decode is lossless': TABLE.norewrite (the bytes returned by Json/JsonIndent come from encoding/json without textual substitution; safeEncoding selects the escaping mode), INFL.cover (JsonUseNumber controls Decoder.UseNumber), WRAP.compose (Copy = Json then NewMapJson), WRAP.writer (the Writer forms hand the writer exactly the encoder's bytes), ERR.path on the JSON functions, OWN.private (the bytes / the copy returned are not reachable from package state, so a later encode cannot rewrite them). Not decided: agreement with encoding/json on acceptance; array wrapping. JSON.firstvalue (NewMapJson answers without the decoder only for the empty input; one Decode, none in a loop or after another). JSON.firstvalue decoder-error clause (after Decode a nil error only where the decoder's error was tested nil)."+levelNote,
+		"Structural clauses of 'JSON encode/decode is lossless': TABLE.norewrite (the bytes returned by Json/JsonIndent come from encoding/json without textual substitution; safeEncoding selects the escaping mode), INFL.cover (JsonUseNumber controls Decoder.UseNumber), WRAP.compose (Copy = Json then NewMapJson), WRAP.writer (the Writer forms hand the writer exactly the encoder's bytes), ERR.path on the JSON functions, OWN.private (the bytes / the copy returned are not reachable from package state, so a later encode cannot rewrite them). Not decided: agreement with encoding/json on acceptance; array wrapping. JSON.firstvalue (NewMapJson answers without the decoder only for the empty input; one Decode, none in a loop or after another). JSON.firstvalue decoder-error clause (after Decode a nil error only where the decoder's error was tested nil). OPT.scope (no XML option is loaded below the JSON functions)."+levelNote,
 		nil,
 		func(p *Prog, r *Report) {
 			ruleOwnPrivate(p, r, []string{"mxj.Map.Json", "mxj.Map.JsonIndent", "mxj.Map.JsonWriterRaw", "mxj.Map.JsonIndentWriterRaw", "mxj.Map.Copy"})
 		},
 		ruleTableNoRewrite,
+		func(p *Prog, r *Report) { ruleOptScope(p, r, "Json") },
 		func(p *Prog, r *Report) { ruleInflCoverJson(p, r) },
 		ruleJsonDecoderFor([]string{"mxj.NewMapJson", "mxj.NewMapJsonReader", "mxj.NewMapJsonReaderRaw", "mxj.HandleJsonReader", "mxj.HandleJsonReaderRaw", "mxj.NewMapsFromJsonFile", "mxj.NewMapsFromJsonFileRaw"}),
 		func(p *Prog, r *Report) {
@@ -331,9 +332,9 @@ func init() {
 		panicRules([]string{"mxj.Map.UpdateValuesForPath"}))
 
 	register("C11",
-		"Structural clauses of SetValueForPath / Remove / RenameKey: PAIR.atomic (exactly the documented writes, none in a loop, no error return reachable after a write, the renamed value moved unchanged then the old key deleted on the same parent, collision test is a presence test), WALK.progress for the parent walker (parent returned by position, recursion on the rest of the path; a value that is not a map ends the walk with an error), PATH.segments (the path is taken apart at its last separator: the deleted / moved key is the last segment, the sibling that forbids a rename is looked up under the path without its last segment), PANIC.assert/idx/nil, PRESENCE.commaok. Not decided: the frame condition as a whole; refusal to overwrite at top level (a string-value fact). PATH.segments value-independence clause for SetValueForPath. PATH.segments clause: SetValueForPath looks the parent up under the path without its last segment."+levelNote,
+		"Structural clauses of SetValueForPath / Remove / RenameKey: PAIR.atomic (exactly the documented writes, none in a loop, no error return reachable after a write, the renamed value moved unchanged then the old key deleted on the same parent, collision test is a presence test), WALK.progress for the parent walker (parent returned by position, recursion on the rest of the path; a value that is not a map ends the walk with an error), PATH.segments (the path is taken apart at its last separator: the deleted / moved key is the last segment, the sibling that forbids a rename is looked up under the path without its last segment), PANIC.assert/idx/nil, PRESENCE.commaok. Not decided: the frame condition as a whole; refusal to overwrite at top level (a string-value fact). PATH.segments value-independence clause for SetValueForPath. PATH.segments clause: SetValueForPath looks the parent up under the path without its last segment. PATH.segments empty-path clause (the segment list the lookup hands to its walker is not provably non-empty: the empty path selects the receiver itself)."+levelNote,
 		nil,
-		rulePairAtomic, ruleWalkParent, ruleSetValueIndependent, ruleSetParentPath, rulePathSegments, ruleParentNotQueried,
+		rulePairAtomic, ruleWalkParent, ruleSetValueIndependent, ruleSetParentPath, ruleEmptyPathSelf, rulePathSegments, ruleParentNotQueried,
 		func(p *Prog, r *Report) {
 			in := map[string]bool{}
 			for _, f := range p.scopeFuncs(r, "PRESENCE.commaok", grpMutators[:3]) {
@@ -344,11 +345,11 @@ func init() {
 		panicRules(grpMutators[:3]))
 
 	register("C12",
-		"Structural clauses of NewMap: EFFECT.recv (no write instruction reachable from NewMap can target memory reachable from the receiver, for every list of pairs), ERR.path, PANIC.* on the projection code. Not decided: exact content of the projection. ERR.path of j2x.JsonNewJson."+levelNote,
+		"Structural clauses of NewMap: EFFECT.recv (no write instruction reachable from NewMap can target memory reachable from the receiver, for every list of pairs), ERR.path, PANIC.* on the projection code. Not decided: exact content of the projection. ERR.path of j2x.JsonNewJson. ARGS.validated (no success return of NewMap is decided by a test of the receiver ahead of the pair loop: pairs are validated whatever the receiver holds)."+levelNote,
 		nil,
 		func(p *Prog, r *Report) { ruleEffectRecv(p, r, p.named("mxj.Map.NewMap"), "EFFECT.recv") },
 		func(p *Prog, r *Report) { ruleErr(p, r, []string{"mxj.Map.NewMap", "j2x.JsonNewJson"}, "NewMap") },
-		ruleNewMapArgs, ruleCopyNonNil,
+		ruleNewMapArgs, ruleCopyNonNil, ruleNewMapEarly,
 		panicRules(grpProject))
 
 	register("C13",
@@ -399,11 +400,11 @@ func init() {
 		})
 
 	register("C16",
-		"Structural clauses of encoder determinism and variant agreement: ORDER (no order-sensitive effect inside a map range; collected slices sorted before use; the sort key is the map key / sequence number), WRAP.writer (8 writer forms write exactly the encoder's bytes once), WRAP.concat (Maps string forms concatenate per-Map encodings in list order; file forms write exactly the string form), INFL.indent (the indent flag only adds whitespace), SEQ.types (every typed read of a '#seq' entry in the sequence encoder accepts both int and float64, so equal MapSeqs are ordered alike however they were built), VALID.coupling (the optional validity check reads a copy and returns the accumulator's bytes untouched, so the document does not depend on the check being on), TAGS.protocol / TAGS.seqprotocol (in particular: no indentation is written between an element's own text and its end tag, where it would become character data), EFFECT.nondet (no goroutine/time/rand/pool on encoder paths), FWD.variadic/FWD.param (options forwarded), OPT.scope (encoders read only encoder options). Not decided: byte identity between variants beyond the structural identity of the bytes handed on. ROOT.single / ROOT.ownkey; EFFECT.nondet counts object identity as a source. EFFECT.recv of the six encoders (encoding twice gives the same bytes because the receiver is not written)."+levelNote,
+		"Structural clauses of encoder determinism and variant agreement: ORDER (no order-sensitive effect inside a map range; collected slices sorted before use; the sort key is the map key / sequence number), WRAP.writer (8 writer forms write exactly the encoder's bytes once), WRAP.concat (Maps string forms concatenate per-Map encodings in list order; file forms write exactly the string form), INFL.indent (the indent flag only adds whitespace), SEQ.types (every typed read of a '#seq' entry in the sequence encoder accepts both int and float64, so equal MapSeqs are ordered alike however they were built), VALID.coupling (the optional validity check reads a copy and returns the accumulator's bytes untouched, so the document does not depend on the check being on), TAGS.protocol / TAGS.seqprotocol (in particular: no indentation is written between an element's own text and its end tag, where it would become character data), EFFECT.nondet (no goroutine/time/rand/pool on encoder paths), FWD.variadic/FWD.param (options forwarded), OPT.scope (encoders read only encoder options). Not decided: byte identity between variants beyond the structural identity of the bytes handed on. ROOT.single / ROOT.ownkey; EFFECT.nondet counts object identity as a source. EFFECT.recv of the six encoders (encoding twice gives the same bytes because the receiver is not written). SEQ.unwind (every member of a list of same-named children is an entry of its own in the sequence encoder)."+levelNote,
 		nil,
 		func(p *Prog, r *Report) { ruleOrder(p, r, encoderRoots()) },
 		func(p *Prog, r *Report) { ruleNondet(p, r, encoderRoots()) },
-		ruleWrapWriter, ruleWrapConcat, ruleInflIndent, ruleValidCoupling, ruleSeqTypes, ruleJsonNoMarshal, ruleRootSingle, ruleRootOwnKey,
+		ruleWrapWriter, ruleWrapConcat, ruleInflIndent, ruleValidCoupling, ruleSeqTypes, ruleJsonNoMarshal, ruleRootSingle, ruleRootOwnKey, ruleSeqUnwind,
 		func(p *Prog, r *Report) {
 			ruleEffectRecv(p, r, p.named("mxj.Map.Xml", "mxj.Map.XmlIndent", "mxj.MapSeq.Xml", "mxj.MapSeq.XmlIndent", "mxj.Map.Json", "mxj.Map.JsonIndent"), "EFFECT.recv")
 		},
@@ -421,7 +422,7 @@ func init() {
 		func(p *Prog, r *Report) { ruleOptScope(p, r, "MapEncode", "SeqEncode", "SeqEncodeIndent", "Json") })
 
 	register("C17",
-		"The static argument for 'read-only operations never modify their receiver and may run concurrently': EFFECT.recv (for each of the read-only Map/MapSeq/Maps methods, no write instruction in any function reachable from it can target memory reachable from its receiver), EFFECT.global (no function reachable from a non-setter API writes a package variable or memory reachable from one), EFFECT.input (no write reachable from a package-level decoder can target the byte slice it is given, append into its spare capacity included: goroutines decoding adjacent documents of one buffer do not interfere), OWN.fresh (Copy's result reaches no memory of its argument), OPT.writers. Without a write instruction that can reach shared memory there is no schedule that races or modifies the receiver. Not decided: 'results identical to sequential execution' beyond the absence of shared writes; thread-safety of the standard library is trusted. OPT.callers (no library function calls an option setter)."+levelNote,
+		"The static argument for 'read-only operations never modify their receiver and may run concurrently': EFFECT.recv (for each of the read-only Map/MapSeq/Maps methods, no write instruction in any function reachable from it can target memory reachable from its receiver), EFFECT.global (no function reachable from a non-setter API writes a package variable or memory reachable from one), EFFECT.input (no write reachable from a package-level decoder can target the byte slice it is given, append into its spare capacity included: goroutines decoding adjacent documents of one buffer do not interfere), OWN.fresh (Copy's result reaches no memory of its argument), OPT.writers. Without a write instruction that can reach shared memory there is no schedule that races or modifies the receiver. Not decided: 'results identical to sequential execution' beyond the absence of shared writes; thread-safety of the standard library is trusted. OPT.callers (no library function calls an option setter). EFFECT.global pointer clause (no store through a pointer loaded from a package variable below a non-setter API)."+levelNote,
 		[]string{"whole-program inclusion-based points-to analysis (pointsto.go) with the standard-library effect model", "standard library internals are data-race free for distinct values"},
 		func(p *Prog, r *Report) { ruleEffectRecv(p, r, p.readOnlyMethods(), "EFFECT.recv") },
 		ruleEffectGlobal, ruleEffectInput,
@@ -435,9 +436,9 @@ func init() {
 		func(p *Prog, r *Report) { ruleOptScope(p, r) }, ruleInflCastFlag)
 
 	register("C19",
-		"Structural clauses of 'files, gob and Copy read back equal': WRAP.concat (file writers write exactly the string form, which is the concatenation of per-Map encodings), WRAP.fileloop (readers loop on the raw reader over the opened file; exits only by io.EOF or an error return carrying the Maps read so far; every decoded Map is appended), TABLE.gob (Encode/Decode type agreement; container types registered), WRAP.compose + OWN.fresh (Copy), JSON.decoder (every JSON decode the reader and file functions reach is the one Decoder of NewMapJson on which UseNumber is set under JsonUseNumber: numbers written from json.Number values are read back as such), ERR.path on the file and gob functions. Not decided: equality of what is read back; behaviour on truncated files. WRAP.fileloop append-after-error-test clause. WRAP.fileloop clause: no os.Lstat below the readers."+levelNote,
+		"Structural clauses of 'files, gob and Copy read back equal': WRAP.concat (file writers write exactly the string form, which is the concatenation of per-Map encodings), WRAP.fileloop (readers loop on the raw reader over the opened file; exits only by io.EOF or an error return carrying the Maps read so far; every decoded Map is appended), TABLE.gob (Encode/Decode type agreement; container types registered), WRAP.compose + OWN.fresh (Copy), JSON.decoder (every JSON decode the reader and file functions reach is the one Decoder of NewMapJson on which UseNumber is set under JsonUseNumber: numbers written from json.Number values are read back as such), ERR.path on the file and gob functions. Not decided: equality of what is read back; behaviour on truncated files. WRAP.fileloop append-after-error-test clause. WRAP.fileloop clause: no os.Lstat below the readers. TABLE.norewrite (the JSON written to a file comes from the one encoder without textual substitution or json.Marshal). ERR.eoftest (the end of the input is recognised by identity with io.EOF; an errors.Is test only where nothing reachable wraps errors)."+levelNote,
 		nil,
-		ruleWrapConcat, ruleWrapFileLoop, ruleTableGob, ruleJsonEscape, ruleFileNoLstat,
+		ruleWrapConcat, ruleWrapFileLoop, ruleTableGob, ruleJsonEscape, ruleFileNoLstat, ruleTableNoRewrite, ruleJsonNoMarshal, ruleEOFTest,
 		func(p *Prog, r *Report) { ruleJsonScanClosing(p, r, "mxj.getJson") },
 		func(p *Prog, r *Report) { ruleJsonScanEscape(p, r, "mxj.getJson") },
 		func(p *Prog, r *Report) {
